@@ -45,7 +45,7 @@ def main(argv):
                 ctx.record_violation(v.signature, v.spec, v.message)
         if not a.replay:
             mod.run(ctx)
-        rc = core.finish(ctx, mod.LEVEL, mod.RULE, t0, getattr(mod, "ASSUMPTIONS", ()), None)
+        rc = core.finish(ctx, mod.LEVEL, mod.RULE, t0, getattr(mod, "ASSUMPTIONS", ()), None, write_evidence=not a.replay)
     except core.HarnessError as e:
         print(f"HARNESS-ERROR property={pid}: {e}")
         return 2
